@@ -331,6 +331,16 @@ func (m *Message) putSecretExpr(ctx context.Context, exprStr string) error {
 	return err
 }
 
+// getSecretStringWithMaxSize is getSecretString with the size cap of
+// GetStringWithMaxSize.
+func (m *Message) getSecretStringWithMaxSize(ctx context.Context, maxSize int) (string, error) {
+	if sc, ok := m.stream.(secretCrypto); ok {
+		sc.PrepareCryptoForSecret()
+		defer sc.RestoreCryptoAfterSecret()
+	}
+	return m.GetStringWithMaxSize(ctx, maxSize)
+}
+
 func (m *Message) GetClassAdRaw(ctx context.Context) (string, error) {
 	numExprs, err := m.GetInt(ctx)
 	if err != nil {
@@ -477,7 +487,17 @@ func getClassAdFromMessageWithMaxSize(m *Message, maxSize int, ctx context.Conte
 		// items, one counted expression -- see GetClassAdRawBody). Consume the secret
 		// as the real expression instead of desyncing on the marker.
 		if exprStr == SecretMarker {
-			exprStr, err = m.getSecretString(ctx)
+			if maxSize > 0 {
+				// The secret counts against the same byte budget as every other
+				// expression; reading it unbounded would let a peer bypass maxSize.
+				remainingBytes := maxSize - totalBytesRead
+				if remainingBytes <= 0 {
+					return nil, fmt.Errorf("ClassAd exceeds maximum size (%d bytes) while reading secret expression %d", maxSize, i)
+				}
+				exprStr, err = m.getSecretStringWithMaxSize(ctx, remainingBytes)
+			} else {
+				exprStr, err = m.getSecretString(ctx)
+			}
 			if err != nil {
 				return nil, fmt.Errorf("failed to read secret expression %d (expected %d): %w", i, numExprs, err)
 			}
